@@ -509,7 +509,7 @@ func c08R5(r *Report) {
 	p := r.P
 	fce := optCond("ForceCryptoHandshake")
 	fe := optCond("ForceEncryption")
-	reqs := []edgeReq{{"!ForceCryptoHandshake", fce, false}, {"!ForceEncryption", fe, false}}
+	reqs := []edgeReq{{Name: "!ForceCryptoHandshake", Cond: fce, Pol: false}, {Name: "!ForceEncryption", Cond: fe, Pol: false}}
 	// (a) server: from checkHeader(buf) == true, every path that reaches the handshake reply without going through
 	// crypto.ServerHandshake tested both force bits false
 	sh := p.Func("protocol", "ServerHandshake")
